@@ -96,6 +96,7 @@ def gen_plan_c08b(seed, tier, index):
         plan['outputs'] = ['xml'] + (['lines'] if r.random() < 0.5 else [])
         plan['cfg'].pop('decoder')
         plan['layout_ocr'] = r.random() < 0.7       # read the detected lines too (then not poolable: TorchScript engine)
+        plan['cfg']['ocr_scale'] = 3.0              # a less saturated recogniser: crop quality shows in the confidences
     scen = []
     for _ in range(r.randint(1, 3)):
         kind = r.choice(['seq', 'pool', 'pool', 'crash']) if (mode == 'decode' or (mode == 'layout' and not plan.get('layout_ocr'))) else r.choice(['seq', 'crash'])
@@ -300,6 +301,13 @@ def gen_plan_c09b(seed, tier, index):
             'clock': {'inc': [0.001, 0.02], 'jumps': {}}}
     p1 = dict(plan, procs=1)
     w1 = len(plan['outputs']) * npages
+    if r.random() < 0.2:
+        plan['producer'] = 'library'
+        for pg in pages:
+            for ln in pg['lines']:
+                if r.random() < 0.3:
+                    ln['range'] = r.choice(['logprob', 'subnormal'])
+                    ln['dtype'] = 'float64'
     plan['stage1'] = run_spec(r, p1, crash_at=None if fault_free or r.random() < 0.5 else r.randint(0, w1))
     plan['stage1_resume'] = run_spec(r, p1)
     plan['corrupt'] = [] if fault_free else [
@@ -363,8 +371,20 @@ def execute_c09b(plan):
                'outputs': ['xml', 'alto']}
         PageLayout.save_logits = monitored_save
         try:
-            proc = world.simulate_process(s1, plan['stage1'])
-            if proc.exit == 'killed':
+            if plan.get('producer') == 'library':
+                # the artefacts were not written by parse_folder but by some other program using the library
+                # (an earlier version, a GPU stage, a conversion script): PAGE XML + logits saved directly
+                os.makedirs(os.path.join(s1, 'xml'))
+                os.makedirs(os.path.join(s1, 'logits'))
+                for pg in plan['pages']:
+                    lay = world.logit_layout(pg)
+                    lay.to_pagexml(os.path.join(s1, 'xml', pg['id'] + '.xml'))
+                    lay.save_logits(os.path.join(s1, 'logits', pg['id'] + '.logits'))
+                res.probe('artefacts_written_by_library_code')
+                proc = None
+            else:
+                proc = world.simulate_process(s1, plan['stage1'])
+            if proc is not None and proc.exit == 'killed':
                 res.probe('stage1_killed')
                 snap1 = snapshot(s1)
                 orphans = [p for p in ids if 'xml/%s.xml' % p in snap1 and 'logits/%s.logits' % p not in snap1]
@@ -382,7 +402,7 @@ def execute_c09b(plan):
                     shutil.rmtree(s2, ignore_errors=True)
                     PageLayout.save_logits = monitored_save
                 proc = world.simulate_process(s1, plan['stage1_resume'])
-            if proc.exit != 'ok':
+            if proc is not None and proc.exit != 'ok':
                 raise kernel.HarnessError('stage 1 did not finish: %s %s' % (proc.exit, proc.stdout[-300:]))
         finally:
             PageLayout.save_logits = orig_save
